@@ -83,6 +83,18 @@ def check_c06(args):
                                   "start": start if k == 0 else rnd.choice([0, 0, 1, len(vals) // 5]),
                                   "seed": rnd.randrange(1, 2 ** 31)})
                     cid += 1
+    # very long runs (run counts beyond 16384 / 32768 / 65535) in run-length and plain columns
+    for ty in ("int", "varchar", "smallint"):
+        for runlen in ([40000, 70000] if big else [40000]):
+            for nullable_run in (False, True):
+                v0, v1 = VALUES[ty][1], VALUES[ty][3]
+                vals = [v1] * 3 + ([None] * runlen if nullable_run else [v0] * runlen) + [v1, v0, v1] * 3
+                for encode in ("rle", "plain") if runlen == 40000 else ("rle",):
+                    for k in range(2):
+                        cases.append({"id": str(cid), "ty": ty, "char_width": 0, "nullable": True, "encode": encode,
+                                      "block": rnd.choice([128, 4096]), "chunks": [[enc(x) for x in vals]],
+                                      "start": [0, runlen - 5][k], "seed": rnd.randrange(1, 2 ** 31)})
+                        cid += 1
     cases = [c for c in cases if any(c["chunks"])]        # an empty row-set can not be built
     outs = run_sharded("column", cases, tag="c06", timeout=3000, case_timeout=60)
     recs, meta = [], {}
